@@ -77,6 +77,8 @@ func main() {
 				if x.Op == token.AND { // address of a package-level variable escapes
 					check(x.X, x.Pos())
 				}
+			case *ast.SliceExpr: // a slice of a package-level array aliases it
+				check(x.X, x.Pos())
 			case *ast.GoStmt:
 				gos = append(gos, fmt.Sprint(fset.Position(x.Pos()).Line))
 			}
